@@ -105,36 +105,6 @@ theorem loop_inv (sb db : Buf) (prog : List UInt8) (fuel : Nat) (r : Run) (h : I
       · rename_i r' heq
         rw [heq] at hs; exact ih r' hs
 
-/-- From the reader invariant to the caller-visible contract (the last step of `iobuf_inv_reader`). -/
-theorem reader_final (b0 : Buf) (hv : b0.valid) (s : St) (h : RInv b0 s) :
-    (finalSave s).valid ∧ b0.ri ≤ (finalSave s).ri ∧ (finalSave s).mem = b0.mem ∧
-    (finalSave s).len = b0.len := by
-  obtain ⟨hw, hmem, hlen, hri, hhp, hio1, hlo, hhi, hwi, hch⟩ := h
-  have hle := hch.le
-  have hml : s.b.mem.length = b0.mem.length := by rw [hmem]
-  obtain ⟨h1, h2, h3, h4⟩ := hv
-  unfold finalSave
-  cases hp : b0.hasPtr
-  · simp only [hhp, hp, Bool.not_false, ↓reduceIte, Buf.valid]
-    have := h4 hp
-    refine ⟨⟨?_, ?_, ?_, fun _ => by omega⟩, ?_, hmem, hlen⟩ <;> omega
-  · simp only [hhp, hp, Bool.not_true, Bool.false_eq_true, ↓reduceIte, hw, Buf.valid]
-    refine ⟨⟨?_, ?_, ?_, ?_⟩, ?_, hmem, hlen⟩ <;> first | omega | simp
-
-/-- From the writer invariant to the caller-visible contract (the last step of `iobuf_inv_writer`). -/
-theorem writer_final (b0 : Buf) (hv : b0.valid) (s : St) (h : WInv b0 s) :
-    (finalSave s).valid ∧ b0.wi ≤ (finalSave s).wi ∧ (finalSave s).ri = b0.ri ∧
-    (∀ i, i < b0.wi → (finalSave s).mem[i]? = b0.mem[i]?) := by
-  obtain ⟨hw, hml, hbelow, hri, hwi, hhp, hio1, hlo, hhi, hcap, hlenle, hch⟩ := h
-  obtain ⟨h1, h2, h3, h4⟩ := hv
-  unfold finalSave
-  cases hp : b0.hasPtr
-  · simp only [hhp, hp, Bool.not_false, ↓reduceIte, Buf.valid, hri, hwi, hml]
-    have := h4 hp
-    refine ⟨⟨h1, ?_, ?_, fun _ => by omega⟩, Nat.le_refl _, trivial, hbelow⟩ <;> omega
-  · simp only [hhp, hp, Bool.not_true, Bool.false_eq_true, ↓reduceIte, hw, Buf.valid, hri, hml]
-    refine ⟨⟨?_, ?_, ?_, ?_⟩, ?_, trivial, hbelow⟩ <;> first | omega | simp
-
 /-- **vm_contract.** One call of the probe's interpreter — any program, any saved `pc`, resumption
 point and scratch value — on valid source and destination buffers: afterwards both satisfy
 `ri ≤ wi ≤ len`, the source's `ri` and the destination's `wi` did not move backwards, the source bytes
@@ -170,7 +140,9 @@ theorem vm_contract (prog : List UInt8) (vm : VM) (sb db : Buf) (hs : sb.valid) 
   unfold callVM
   dsimp only
   rw [hf.1, hf.2]
-  exact ⟨reader_final sb hs _ hI.src, writer_final db hd _ hI.dst⟩
+  have hr := reader_final sb hs _ hI.src
+  have hw := writer_final db hd _ hI.dst
+  exact ⟨⟨hr.1, hr.2.1, hr.2.2.1, hr.2.2.2.1⟩, ⟨hw.1, hw.2.1, hw.2.2.1, hw.2.2.2.1⟩⟩
 
 /-- non-vacuity: a program that copies under an `io_limit`, suspends on an empty source and is
 resumed by a second call with more input. -/
